@@ -297,6 +297,7 @@ func c15Run(c *RunCtx) {
 		f0a, f0b := len(e.a.Frames()), len(e.b.Frames())
 		before := ""
 		target := ""
+		qrSuffix := ".queryEventList"
 		c.WAL("C15 #%d kind=%s seed=%d", i, kind, seed)
 		desc := func() map[string]interface{} {
 			p := payload
@@ -373,13 +374,22 @@ func c15Run(c *RunCtx) {
 			pickS([]string{``, `null`, `{}`, `{"result":null}`, `{"result":{}}`, `{"result":{"events":null}}`, `{"result":{"events":{}}}`, `{"result":{"events":[null]}}`, `{"result":{"events":[{"event":"add"}]}}`,
 				`{"result":{"events":[{"event":"add","data":{"idx":99,"value":1}}]}}`, `{"result":{"events":[{"event":"add","data":{"idx":0,"value":"ok"}},{"event":"add","data":{"idx":99,"value":1}}]}}`,
 				`{"result":{"events":[{"event":"change","data":{"values":{"a":1}}}]}}`, `{"result":{"model":{"a":1}}}`, `{"result":{"events":[],"collection":[]}}`, `{"result":{"collection":[{}]}}`,
-				`{"result":{"events":[{"event":12}]}}`, `{"error":{}}`}, `{"result":{"events":[{"event":"add","data":{"idx":0,"value":"n"}}]}}`)
+				`{"result":{"events":[{"event":12}]}}`, `{"error":{}}`,
+				// a full collection with an inadmissible member next to other differences
+				`{"result":{"collection":["zz0",{"action":"delete"},"zz2"]}}`, `{"result":{"collection":[{"action":"delete"},"i0","i1"]}}`,
+				`{"result":{"collection":["i1",{"action":"unknown"}]}}`, `{"result":{"collection":["q",{"rid":"a..b"},"r"]}}`, `{"result":{"collection":[[1],"i0"]}}`,
+				`{"result":{"collection":["i0","i1",{"rid":"t.c","action":"delete"}]}}`},
+				`{"result":{"events":[{"event":"add","data":{"idx":0,"value":"n"}}]}}`)
 			c.WAL("C15 #%d kind=%s payload=%q", i, kind, trunc200([]byte(payload)))
-			if strings.Contains(payload, `"idx":99`) || strings.Contains(payload, `"event":"change"`) || strings.Contains(payload, `[null]`) || strings.Contains(payload, `"event":12`) {
+			badMember := strings.Contains(payload, `{"result":{"collection":[`) && (strings.Contains(payload, `"action":`) || strings.Contains(payload, `a..b`) || strings.Contains(payload, `[[1]`)) && json.Valid([]byte(payload))
+			if badMember || strings.Contains(payload, `"idx":99`) || strings.Contains(payload, `"event":"change"`) || strings.Contains(payload, `[null]`) || strings.Contains(payload, `"event":12`) {
 				// an event list with an inapplicable member: the whole response is to be discarded
 				malformed = true
 				target = "q.items?w=2"
 				before = e.cacheOf(target)
+				if badMember {
+					qrSuffix = ".queryCollection"
+				}
 			}
 			subj := w.MutateQuery("q.items", func(d []Val) []Val { return d })
 			e.s.Quiesce()
@@ -442,7 +452,7 @@ func c15Run(c *RunCtx) {
 			if after := e.cacheOf(target); after != before {
 				sig := "malformedApplied"
 				if kind == "queryresp" {
-					sig = "malformedApplied.queryEventList"
+					sig = "malformedApplied" + qrSuffix
 				}
 				c.Violation(VReport{Prop: "C15", Sig: sig, Msg: fmt.Sprintf("malformed %s message %s changed the cached %s from %s to %s", kind, trunc200([]byte(payload)), target, before, after), Witness: desc()})
 			}
@@ -455,7 +465,7 @@ func c15Run(c *RunCtx) {
 					if f.Event != "" {
 						sig := "malformedForwarded"
 						if kind == "queryresp" {
-							sig = "malformedForwarded.queryEventList"
+							sig = "malformedForwarded" + qrSuffix
 						}
 						c.Violation(VReport{Prop: "C15", Sig: sig, Msg: fmt.Sprintf("malformed %s message %s made the gateway send %s", kind, trunc200([]byte(payload)), trunc200(f.Raw)), Witness: desc()})
 					}
